@@ -220,15 +220,24 @@ def lean_rejects_difflib(gen_dir):
                            stdout=subprocess.PIPE, stderr=subprocess.STDOUT)
         if r.returncode != 0:
             return True
-        r = subprocess.run([lean, 'GoSnaps/Props/Tie/DifflibGen.lean'], cwd=leandir, env=env, stdout=subprocess.PIPE, stderr=subprocess.STDOUT)
-        return r.returncode != 0
+        # Props/Tie/DifflibGen.lean (finite agreement by kernel evaluation, getOpCodes), then, compiled against it,
+        # Props/Tie/DifflibGen2.lean (the proofs for all inputs: GetGroupedOpCodes, chainB, findLongestMatch, getMatchingBlocks)
+        for mod in ('DifflibGen', 'DifflibGen2'):
+            for e in ('olean', 'ilean'):
+                if os.path.lexists(lib + '/GoSnaps/Props/Tie/' + mod + '.' + e):
+                    os.remove(lib + '/GoSnaps/Props/Tie/' + mod + '.' + e)
+            r = subprocess.run([lean, 'GoSnaps/Props/Tie/' + mod + '.lean', '-o', lib + '/GoSnaps/Props/Tie/' + mod + '.olean'],
+                               cwd=leandir, env=env, stdout=subprocess.PIPE, stderr=subprocess.STDOUT)
+            if r.returncode != 0:
+                return True
+        return False
     finally:
         shutil.rmtree(d, ignore_errors=True)
 
 
-# difflib mutants that only show on sequences of 200 and more lines: out of reach of the finite agreement
-# test (kernel evaluation on short sequences); they are noticed as a changed transliteration only
-LEAN_BLIND = ('chainB purges popular elements only above 200 lines (> for >=)',)
+# difflib mutants the Lean re-check is not expected to notice (none: the purge threshold is now caught by the
+# proof chainB_b2j_agrees of Props/Tie/DifflibGen2.lean, not only by the finite tests)
+LEAN_BLIND = ()
 
 
 def main():
